@@ -99,6 +99,43 @@ def readX (w : Cat) (r : Val) (m : String) (as : List Val) : Option (R Val) :=
 
 def EX : Eff Cat := { effMeths := effMeths, eff := effX, read := readX }
 
+/-! ### two more worlds: the statement log, and a catalogue whose reader follows `ALTER TABLE … RENAME TO` -/
+
+/-- the statements handed to `conn.query`, in order (every statement is accepted) -/
+def logEff (log : List Str) (_r : Val) (m : String) (as : List Val) : Option (R Val × List Str) :=
+  if m = "query" then
+    match as with
+    | [.str s] => some (.ok .none, log ++ [s])
+    | _ => some (.stuck, log)
+  else none
+
+def ELog : Eff (List Str) := { effMeths := effMeths, eff := logEff, read := fun _ _ _ _ => none }
+
+def pAT : Str := [65, 76, 84, 69, 82, 32, 84, 65, 66, 76, 69, 32]              -- "ALTER TABLE "
+def pRT : Str := [32, 82, 69, 78, 65, 77, 69, 32, 84, 79, 32]                    -- " RENAME TO "
+
+/-- `execSQL`, and `ALTER TABLE a RENAME TO b`: the table and (as in SQLite) its indexes go by the new name -/
+def execSQL2 (s : Str) (c : Cat) : Except Unit Cat :=
+  match strip pAT s with
+  | some r =>
+    match strip pRT (r.drop (word r).length) with
+    | some r2 =>
+      if word r ∈ c.tables then
+        .ok { tables := c.tables.map fun t => if t = word r then word r2 else t
+              indexes := c.indexes.map fun p => if p.1 = word r then (word r2, p.2) else p }
+      else .error ()
+    | none => execSQL s c
+  | none => execSQL s c
+
+def effX2 (w : Cat) (_r : Val) (m : String) (as : List Val) : Option (R Val × Cat) :=
+  if m = "query" then
+    match as with
+    | [.str sql] => some (queryRes w (execSQL2 sql w))
+    | _ => some (.stuck, w)
+  else none
+
+def EX2 : Eff Cat := { effMeths := effMeths, eff := effX2, read := readX }
+
 /-- run a stateful function of the translated program from the catalogue `w` with call depth `n` -/
 @[reducible] def callXW (n : Nat) : Cat → Callee → List Val → R Val × Cat := callNW prog ddlI EX n
 
